@@ -122,6 +122,11 @@ c = R.contract(
 )
 c.defaults = {"style": None}
 ANSI_FORMAT_STACK = {"qual": ANSI_FORMAT, "tag": "stack"}
+R.abstractions = getattr(R, "abstractions", {})
+R.abstractions.setdefault(ANSI_FORMAT, []).append(
+    ("self._ESCAPE_BEFORE_CODES.sub('\\\\1', formatted)", "str",
+     "post-processing of the decorated text by a compiled pattern (re, external): a string computed from the decorated "
+     "text only - no effect on the style stack; what it removes is checked by C11.B.renderings"))
 
 # ---------------------------------------------------------------- C11: a style added later takes effect, also under a known tag
 # Ghost model of pastel's style table: per tag, the foreground / background / options last registered.
